@@ -114,3 +114,15 @@ Theorem C04_api_no_index_in_two_files_continuous_unchunked : forall c ops i j a 
   file_lookup a k = Some v -> file_lookup b k = Some w -> i = j.
 Proof. exact api_no_index_in_two_files_continuous_unchunked. Qed.
 Print Assumptions C04_api_no_index_in_two_files_continuous_unchunked.
+
+(* digital_rf_get_time_parts, which the regenerated code above calls, is itself checked on every run
+   (translator T13): it must take its broken-down time from gmtime(&unix_second) -- UTC, not the local
+   zone, not home-made arithmetic -- and add the constants of the regenerated table; the hand model
+   Model/TimeParts.v used above is that table applied to libc's gmtime (Base/Civil.v) *)
+From DRF Require Import Model.TimeParts Gen.TimePartsGen Proofs.TimePartsGenProofs.
+
+Theorem C04_time_parts_is_gmtime_plus_the_regenerated_table : forall t,
+  let '(rc, y, m, d, hh, mm, ss) := digital_rf_get_time_parts t in
+  rc = 0 /\ gen_time_parts t = [y; m; d; hh; mm; ss].
+Proof. exact time_parts_regen. Qed.
+Print Assumptions C04_time_parts_is_gmtime_plus_the_regenerated_table.
